@@ -51,6 +51,7 @@ type World struct {
 	ctx     context.Context
 	trusted map[int]map[string]bool
 	everTrusted map[int]bool
+	quiet bool // build-up phase of big scenarios: no trace lines, no snapshots, no oracles
 }
 
 func NewWorld(c *Ctx) *World {
@@ -293,6 +294,9 @@ func (w *World) Genesis(n *Node, receiver string, supply spice.Melange) (account
 }
 
 func (w *World) Propose(n *Node, t *transaction.Transaction) (accountant.Vertex, error) {
+	if w.quiet {
+		return n.ab.CreateLeaf(w.ctx, t)
+	}
 	tf := w.trxFields(t)
 	v, err := n.ab.CreateLeaf(w.ctx, t)
 	name := 0
@@ -305,12 +309,23 @@ func (w *World) Propose(n *Node, t *transaction.Transaction) (accountant.Vertex,
 }
 
 func (w *World) Add(n *Node, v *accountant.Vertex) error {
+	if w.quiet {
+		cp := *v
+		return n.ab.AddLeaf(w.ctx, &cp)
+	}
 	name := w.DefV(v)
 	cp := *v
 	err := n.ab.AddLeaf(w.ctx, &cp)
 	w.c.Line("ADD %d %d | %s | %s", n.id, name, errTag(err), w.Snap(n))
 	w.after(n, "add", err)
 	return err
+}
+
+// Seed hands the model the implementation's current state (re-seeded stepping mode, used for ledgers
+// with more than a thousand vertices, where replaying the build-up would dominate the run).
+func (w *World) Seed(n *Node) {
+	w.c.Line("SEED %d | ok | %s", n.id, w.Snap(n))
+	w.oracles(n, "load") // initialise the oracle bookkeeping without judging the build-up
 }
 
 func (w *World) Retry(n *Node) (bool, error) {
@@ -391,7 +406,12 @@ func (w *World) balanceOracle(n *Node, addr string, got spice.Melange, err error
 	case err == nil && !okMatch:
 		w.c.Violate("C06", "balance-differs-from-reference", fmt.Sprintf("node %d reported %v for %s; reference per tip %v", n.id, bval(got), w.A(addr), refs), info)
 	case err != nil && !negative:
-		w.c.Violate("C06", "balance-error-on-representable-sum", fmt.Sprintf("node %d reported %v for %s although the reference sums per tip are %v", n.id, err, w.A(addr), refs), info)
+		key := "balance-error-on-nonnegative-sum"
+		if errors.Is(err, spice.ErrValueOverflow) {
+			// the code adds all inflow before subtracting: lifetime inflow beyond 2^64 units overflows
+			key = "balance-inflow-overflow-on-representable-sum"
+		}
+		w.c.Violate("C06", key, fmt.Sprintf("node %d reported %v for %s although the reference sums per tip are %v", n.id, err, w.A(addr), refs), info)
 	}
 }
 
